@@ -522,6 +522,61 @@ def r_position(body):
         body = body[:j] + new + body[close + 1:]
 
 
+def r_filtercollect(body):
+    """RECV.iter().filter(|PAT| COND).cloned().collect::<Vec<T>>()  ->  a loop over RECV.iter() that pushes a clone of every element satisfying COND,
+    in order, into a fresh Vec<T> (definitions of Iterator::filter / cloned / collect into a Vec; the filter closure sees a reference to the
+    iterator's item, as in std).  (R-filtercollect)"""
+    log = []
+    n = 0
+    while True:
+        hit = _method_closure_calls(body, "filter")
+        if hit is None:
+            return body, log
+        x, close, pat, cbody, j, recv = hit
+        rs = re.sub(r"\s+", "", recv)
+        if not rs.endswith(".iter()"):
+            raise Unsupported("R-filtercollect: receiver is not `X.iter()`")
+        base = recv[:recv.rstrip().rfind(".iter()")].rstrip()
+        tail = re.match(r"\s*\.cloned\(\)\s*\.collect::<\s*Vec<\s*([\w:]+)\s*>\s*>\(\)", body[close + 1:])
+        if not tail:
+            raise Unsupported("R-filtercollect: `.cloned().collect::<Vec<T>>()` expected after the filter")
+        ty = tail.group(1)
+        e = close + 1 + tail.end()
+        sfx = "" if n == 0 else str(n)
+        new = ("{ let fsrc%s_ = &(%s); let mut fc%s_: Vec<%s> = Vec::new(); for fx%s_ in fsrc%s_.iter() { let %s = &fx%s_; if %s { fc%s_.push(fx%s_.clone()); } } fc%s_ }"
+               % (sfx, base, sfx, ty, sfx, sfx, pat, sfx, cbody, sfx, sfx, sfx))
+        log.append(("R-filtercollect", norm_ws(body[j:e])[:200], norm_ws(new)[:300]))
+        body = body[:j] + new + body[e:]
+        n += 1
+
+
+def r_itermut(body, refs):
+    """for PAT in RECV.iter_mut() BLOCK  ->  index loop in which PAT is bound to `vec_index_mut_(&mut RECV, k)` (prelude: a mutable borrow of the
+    k-th element; the vector afterwards holds whatever the borrow was left at - the definition of iterating a Vec by `iter_mut`).
+    `refs` lists receivers that already are `&mut Vec<_>` bindings (no further `&mut` is taken).  (R-itermut)"""
+    log = []
+    n = 0
+    while True:
+        m = code_mask(body)
+        mo = None
+        for x in re.finditer(r"\bfor\s+(\w+)\s+in\s+([\w\.]+)\.iter_mut\(\)\s*\{", body):
+            if m[x.start()]:
+                mo = x
+                break
+        if mo is None:
+            return body, log
+        k = mo.end() - 1
+        be = match_close(body, m, k)
+        recv = mo.group(2)
+        sfx = "" if n == 0 else str(n)
+        arg = recv if recv in refs else "&mut " + recv
+        new = "{ let mut im%s_: usize = 0; while im%s_ < %s.len() { let %s = vec_index_mut_(%s, im%s_); %s im%s_ = im%s_ + 1; } }" % (
+            sfx, sfx, recv, mo.group(1), arg, sfx, body[k + 1:be], sfx, sfx)
+        log.append(("R-itermut", norm_ws(body[mo.start():k])[:200], norm_ws(new[:new.find("_); ") + 4])[:300]))
+        body = body[:mo.start()] + new + body[be + 1:]
+        n += 1
+
+
 def r_setappend(body, recv):
     """RECV.append(&mut E)  ->  set_append(&mut RECV, E)   for a BTreeSet receiver: vstd does not specify BTreeSet::append; the prelude's
     `set_append` carries std's documented semantics (union; the argument is drained).  (R-setappend)"""
@@ -1097,6 +1152,9 @@ def _stmt_end(body, m, pos):
     """index just after the `;` that ends the statement containing pos (same nesting level); a statement that starts with a block
     keyword (if / for / while / loop / match) ends at the close of its last block (else-chains included)."""
     n = len(body)
+    if body[pos] == "{":
+        # a bare block statement (the form several rewrites leave behind)
+        return match_close(body, m, pos) + 1
     if re.match(r"(if|for|while|loop|match)\b", body[pos:pos + 6]):
         k = pos
         while True:
@@ -1631,6 +1689,9 @@ def emit_fn(f, udir, unit_props, recs, log_global):
         if "extend" in rewrites:
             body, l = r_extend(body)
             log += l
+        if "filtercollect" in rewrites:
+            body, l = r_filtercollect(body)
+            log += l
         if f.get("chunk"):
             body, helpers_, l = r_chunk(sig, body, f["chunk"], where)
             log += l
@@ -1659,6 +1720,9 @@ def emit_fn(f, udir, unit_props, recs, log_global):
             log += l
         if "continue" in rewrites:
             body, l = r_continue(body)
+            log += l
+        if "itermut" in rewrites:
+            body, l = r_itermut(body, f.get("itermut_refs", []))
             log += l
         if "retain" in rewrites:
             body, l = r_retain(body, f.get("retain_elem", "usize"))
